@@ -15,7 +15,8 @@ META = {
     "text": "Per-clause theorem: choice-node CPT + OrCPTs realise the AD semantics given the parents; lifted to every clause "
             "list (ancestral reading). Tie: for generated acyclic evidence-free programs the real formula_to_bn is run; every "
             "choice-node table and OrCPT is compared with the Coq model's for the same clause; the real factors are multiplied "
-            "out (Fractions) and all atom marginals compared with exact possible-world probabilities and ProbLog's own numbers.",
+            "out (Fractions) and all atom marginals compared with exact possible-world probabilities and ProbLog's own numbers."
+            " C31_marginals: the sum over all assignments of the product of all exported factors equals the ancestral pass and the world semantics, for any permutation of a well-formed clause list.",
     "note": "C31_marginals: 'sum over all assignments of the product of all factors = ancestral pass = world semantics' is proved "
             "for every network satisfying the boolean well-formedness wf_netb (duplicate-free atoms, heads among the atoms, "
             "clauses in topological order); C31_marginals_any_order: the marginal is invariant under clause permutation, so the "
